@@ -186,6 +186,62 @@ pub fn c03(out: &mut Out, thorough: bool) {
     }
 }
 
+fn board_hash(x: &Board) -> u64 {
+    use std::hash::{Hash, Hasher};
+    let mut s = std::collections::hash_map::DefaultHasher::new();
+    x.hash(&mut s);
+    s.finish()
+}
+
+/// the board as played versus the board rebuilt from this harness's own FEN text of it
+fn hash_rebuilt(b: &Board, v: &View) -> String {
+    let fen = fen_of(&v.squares, v.white_to_move, v.rights, v.ep, (v.half as u32).min(9999), (v.full as u32).min(9999));
+    match chess_movegen::fen::parse_fen(fen.as_bytes()) {
+        Err(e) => format!("rebuilt-rejected:{e:?}").replace(' ', ""),
+        Ok(r) if r != *b => "differs:eq".into(),
+        Ok(r) if r.zobrist() != b.zobrist() => "differs:zobrist-of-equal-boards".into(),
+        Ok(r) if board_hash(&r) != board_hash(b) => "differs:Hash-of-equal-boards".into(),
+        Ok(_) => "same".into(),
+    }
+}
+
+/// variants of the position that differ in exactly one component (one castling right, the e.p.
+/// file, the side to move, one man removed) and are accepted by the parser must hash differently
+fn hash_components(v: &View, z: u64) -> String {
+    let try_variant = |squares: &[u8; 64], white: bool, rights: u8, ep: Option<u8>, what: &str| -> Option<String> {
+        let fen = fen_of(squares, white, rights, ep, v.half.min(9999) as u32, v.full.min(9999) as u32);
+        match chess_movegen::fen::parse_fen(fen.as_bytes()) {
+            Ok(r) if r.zobrist() == z => Some(format!("same-hash:{what}")),
+            _ => None,
+        }
+    };
+    for bit in 0..4u8 {
+        if v.rights & (1 << bit) != 0 {
+            if let Some(e) = try_variant(&v.squares, v.white_to_move, v.rights & !(1 << bit), v.ep, &format!("without-right-bit-{bit}")) {
+                return e;
+            }
+        }
+    }
+    if v.ep.is_some() {
+        if let Some(e) = try_variant(&v.squares, v.white_to_move, v.rights, None, "without-ep-file") {
+            return e;
+        }
+    } else if let Some(e) = try_variant(&v.squares, !v.white_to_move, v.rights, None, "other-side-to-move") {
+        return e;
+    }
+    for s in 0..64 {
+        let c = v.squares[s];
+        if c != b'.' && c != b'k' && c != b'K' {
+            let mut sq = v.squares;
+            sq[s] = b'.';
+            if let Some(e) = try_variant(&sq, v.white_to_move, v.rights, v.ep, &format!("without-man-on-{s}")) {
+                return e;
+            }
+        }
+    }
+    "distinct".into()
+}
+
 pub fn c04(out: &mut Out, thorough: bool) {
     let n = n_positions(thorough, 8_000, 200_000);
     let mut rng = Rng::new(out.seed ^ 0xC04);
@@ -195,6 +251,10 @@ pub fn c04(out: &mut Out, thorough: bool) {
         let v = view(&b);
         let p = pos64(&v);
         out.case(t.tag, nontrivial(&v), format!("pos derived {p}"), || derived(&v));
+        // the incrementally maintained hash equals the hash of the same position built from scratch
+        out.case("hash-incremental-vs-rebuilt", nontrivial(&v), format!("expect same {p} #hash-rebuilt"), || hash_rebuilt(&b, &v));
+        // every component influences the hash: a position differing in exactly one component hashes differently
+        out.case("hash-one-component", nontrivial(&v), format!("expect distinct {p} #hash-components"), || hash_components(&v, b.zobrist()));
     }
     // transpositions: two independent moves of the side to move, with the same replies, in both orders
     let pairs = if thorough { 100_000 } else { 5_000 };
@@ -834,37 +894,87 @@ fn extremal(rng: &mut Rng, out: &mut Vec<Tagged>, n: usize) {
     }
 }
 
+fn exercise(out: &mut Out, rng: &mut Rng, b: Board, tag: &'static str) {
+    let v = view(&b);
+    let p = pos64(&v);
+    let nt = true;
+    out.case(tag, nt, format!("pos legals {p}"), || sorted_moves(b.legals()));
+    out.case(tag, nt, format!("pos legals.ord {p}"), || ordered_moves(b.legals()));
+    out.case(tag, nt, format!("pos status {p}"), || state_str(&b));
+    out.case(tag, nt, format!("fen show {p}"), || hexbytes(format!("{b}").as_bytes()));
+    out.case(tag, nt, format!("pos derived {p}"), || derived(&v));
+    let m = rng.next() & rng.next();
+    out.case(tag, nt, format!("pos legals {p} {m:x}"), || sorted_moves(b.legals_masked(bb(m))));
+    let legal: Vec<ChessMove> = b.legals().collect();
+    for &mv in legal.iter() {
+        out.case("every-successor", nt, format!("pos move.derived {p} {}", mv_str(mv)), || match b.move_new(mv) {
+            Some(nb) => {
+                // everything a caller does next must work on the successor as well
+                let _ = nb.legals().len();
+                let _ = format!("{nb} {nb:?}");
+                let _ = nb.state();
+                let nv = view(&nb);
+                for s in 0..64u8 {
+                    let _ = nb.raw().get(Pos::from_u8(s).unwrap());
+                }
+                derived(&nv)
+            }
+            None => "refused".into(),
+        });
+    }
+}
+
 pub fn c07(out: &mut Out, thorough: bool) {
     let mut rng = Rng::new(out.seed ^ 0xC07);
     let mut ps = Vec::new();
     extremal(&mut rng, &mut ps, if thorough { 20_000 } else { 1_500 });
     ps.extend(positions(&mut rng, if thorough { 30_000 } else { 1_500 }));
     for t in ps.iter() {
-        let b = t.board;
-        let v = view(&b);
-        let p = pos64(&v);
-        let nt = true;
-        out.case(t.tag, nt, format!("pos legals {p}"), || sorted_moves(b.legals()));
-        out.case(t.tag, nt, format!("pos legals.ord {p}"), || ordered_moves(b.legals()));
-        out.case(t.tag, nt, format!("pos status {p}"), || state_str(&b));
-        out.case(t.tag, nt, format!("fen show {p}"), || hexbytes(format!("{b}").as_bytes()));
-        out.case(t.tag, nt, format!("pos derived {p}"), || derived(&v));
-        let m = rng.next() & rng.next();
-        out.case(t.tag, nt, format!("pos legals {p} {m:x}"), || sorted_moves(b.legals_masked(bb(m))));
-        let legal: Vec<ChessMove> = b.legals().collect();
-        for &mv in legal.iter() {
-            out.case("every-successor", nt, format!("pos move.derived {p} {}", mv_str(mv)), || match b.move_new(mv) {
-                Some(nb) => {
-                    // everything a caller does next must work on the successor as well
-                    let _ = nb.legals().len();
-                    let _ = format!("{nb} {nb:?}");
-                    let _ = nb.state();
-                    derived(&view(&nb))
-                }
-                None => "refused".into(),
-            });
+        exercise(out, &mut rng, t.board, t.tag);
+    }
+    // positions accepted from text that no game produced: grammar-mutated descriptions and random
+    // placements; whatever the parser accepts must be safe to use
+    let fens: Vec<String> = ps.iter().map(|t| fen_of_view(&view(&t.board))).collect();
+    let tries = if thorough { 2_000_000 } else { 120_000 };
+    let (mut acc_mut, mut acc_rand) = (0u64, 0u64);
+    let cap = if thorough { 40_000 } else { 1_500 };
+    for i in 0..tries {
+        let (bytes, tag): (Vec<u8>, &'static str) = if i % 2 == 0 {
+            {
+                let k = rng.below(fens.len() as u64) as usize;
+                (mutate(&mut rng, &fens[k]), "accepted-mutated-text")
+            }
+        } else {
+            let mut sq = [b'.'; 64];
+            for _ in 0..(2 + rng.below(12)) {
+                let c = *rng.pick(&b"PpNnBbRrQqPpPp"[..]);
+                sq[rng.below(64) as usize] = c;
+            }
+            sq[rng.below(64) as usize] = b'K';
+            let mut k = rng.below(64) as usize;
+            while sq[k] == b'K' {
+                k = rng.below(64) as usize;
+            }
+            sq[k] = b'k';
+            let ep = if rng.chance(1, 2) { Some(rng.below(8) as u8) } else { None };
+            (fen_of(&sq, rng.chance(1, 2), if rng.chance(1, 4) { rng.below(16) as u8 } else { 0 }, ep, rng.below(120) as u32, rng.below(300) as u32).into_bytes(), "accepted-random-placement")
+        };
+        let is_mut = i % 2 == 0;
+        if (is_mut && acc_mut >= cap) || (!is_mut && acc_rand >= cap) {
+            continue;
+        }
+        let parsed = crate::common::guard(|| chess_movegen::fen::parse_fen(&bytes).ok());
+        if let Some(b) = parsed.flatten() {
+            // the unmutated originals are already covered above
+            if is_mut {
+                acc_mut += 1;
+            } else {
+                acc_rand += 1;
+            }
+            exercise(out, &mut rng, b, tag);
         }
     }
+    out.notes.insert("accepted-from-text".into(), format!("{acc_mut} mutated descriptions and {acc_rand} random placements accepted and exercised"));
     // clocks at the 16-bit limit through the builder
     for &(h, f) in &[(65535u32, 65535u32), (65534, 65535), (65535, 0), (99, 65535)] {
         for white in [true, false] {
